@@ -5,6 +5,7 @@
 #include "wait.h" // for DeadlineLimited
 
 #include <openssl/bio.h> // for BIO
+#include <openssl/err.h> // for ERR_clear_error
 
 #include <cassert> // for assert
 #include <stdexcept> // for std::logic_error
@@ -361,11 +362,15 @@ void SocketTlsImpl::Shutdown()
   isWritable = false;
   remainingTime = std::chrono::seconds(1);
 
+  // OpenSSL classifies the outcome of an I/O call using the thread's error queue:
+  // it must not contain leftovers of earlier calls (of any TLS socket)
+  ERR_clear_error();
   if(SSL_shutdown(ssl.get()) <= 0) {
     // sent the shutdown, but have not received one from the peer yet
     // spend some time trying to receive it, but go on eventually
     char buf[1024];
     for(int i = 0; i < handshakeStepsMax; ++i) {
+      ERR_clear_error();
       auto res = SSL_read(ssl.get(), buf, sizeof(buf));
       if(res < 0) {
         if(!HandleResult(res)) {
@@ -376,6 +381,7 @@ void SocketTlsImpl::Shutdown()
       }
     }
 
+    ERR_clear_error();
     (void)SSL_shutdown(ssl.get());
   }
 }
@@ -384,6 +390,7 @@ size_t SocketTlsImpl::Read(char *data, size_t size)
 {
   if(HandleLastError()) {
     for(int i = 1; i <= handshakeStepsMax; ++i) {
+      ERR_clear_error(); // see Shutdown
       auto res = SSL_read(ssl.get(), data, static_cast<int>(size));
       if(res <= 0) {
         if(!HandleResult(res)) {
@@ -429,6 +436,7 @@ size_t SocketTlsImpl::Write(char const *data, size_t size)
       assert(pendingSend.empty() || (pendingSend.size() == remaining.size()));
 
       size_t written = 0U;
+      ERR_clear_error(); // see Shutdown
       auto res = SSL_write_ex(ssl.get(), remaining.data(), remaining.size(), &written);
       if(res <= 0) {
         pendingSend = remaining;
